@@ -18,7 +18,7 @@ classification facts are hypotheses of the generic round-trip theorem (`GoodGrou
 trusted base and exercised by the correspondence check (recognisers against Python's `re`,
 render-then-parse).
 -/
-import RB.Proofs.Lemmas.AdaptersRender
+import RB.Proofs.Lemmas.AdaptersFloat
 
 namespace RB.Adapters
 
@@ -400,6 +400,143 @@ example : GoodGroup (cfgRebenchLog false)
     (["Savina.Chameneos: trace size:    3903398byte\r".toList, "pre: B alloc: iterations=1 runtime: 1.5e3us".toList],
      "[12:00] INFO: LanguageFeatures.Dispatch total: iterations=2342 runtime: .5ms\r".toList) := by
   exact goodGroup_of_dec _ _ (by decide +kernel) (by decide +kernel) (by decide +kernel)
+
+
+/-! ## numerals, PlainSecondsLog, `time -p` -/
+
+/-- "every numeral shape the documented grammar admits (integers, decimals, leading dot, exponents)":
+the text a pattern captures for a numeral has the numeral's value — `D+`, `D+.D*`, `.D+`, each with an
+optional `(e|E)[+-]?D+` -/
+theorem c05_numeral_value (n : Numeral) (h : n.Valid) : numeralVal n.render = n.value :=
+  numeralVal_render n h
+
+example : (Numeral.mk "12".toList (some "50".toList) (some ('e', some '-', "3".toList))).Valid := by
+  constructor
+  · decide
+  · intro f hf; cases hf; decide
+  · exact Or.inl (by decide)
+  · intro e sg ds h; cases h
+    exact ⟨by decide, by intro s hs; cases hs; exact Or.inr rfl, by decide, by decide⟩
+
+example : (Numeral.mk [] (some "5".toList) none).Valid := by
+  constructor
+  · decide
+  · intro f hf; cases hf; decide
+  · exact Or.inr ⟨_, rfl, by decide⟩
+  · intro e sg ds h; cases h
+
+example : (Numeral.mk "7".toList (some []) (some ('E', none, "2".toList))).Valid := by
+  constructor
+  · decide
+  · intro f hf; cases hf; decide
+  · exact Or.inl (by decide)
+  · intro e sg ds h; cases h
+    exact ⟨by decide, (by intro s hs; cases hs), by decide, by decide⟩
+
+/-- `classify_render`, PlainSecondsLog: a line with a documented numeral (any shape), surrounded by any
+white space `float()` strips (blanks, the carriage return of CR-LF), is the total, seconds → ms (`·1000`) -/
+theorem c05_classify_render_plain (n : Numeral) (h : n.Valid) (ws1 ws2 : List Char)
+    (h1 : ∀ c ∈ ws1, isFloatSpace c = true) (h2 : ∀ c ∈ ws2, isFloatSpace c = true) :
+    classifyPlainSeconds (ws1 ++ (n.render ++ ws2)) =
+      some { pre := [], main := { criterion := totalName, unit := ms, value := .flt (n.value * 1000) } } := by
+  simp [classifyPlainSeconds, pyFloat_render n h ws1 ws2 h1 h2, Val.mul]
+
+/-- `classify_render`, `time -p`: `word blanks D.D` and `word blanks Dm D.Ds` (the shell's `time`); the
+word `real` is the total, any other word is its own criterion; value = (minutes · 60 + seconds) · 1000 -/
+theorem c05_classify_render_time_p (x : TPLine) (hx : x.Valid) :
+    classifyTimeP x.render = some (timeCrit x.w, .flt x.value) :=
+  classifyTimeP_render x hx
+
+example : (TPLine.mk "real".toList "\t".toList (some "0".toList) "1".toList "500".toList "\r".toList).Valid := by
+  constructor
+  · exact ⟨by decide, by decide⟩
+  · exact ⟨by decide, by decide⟩
+  · intro m hm; cases hm; exact ⟨by decide, by decide⟩
+  · exact ⟨by decide, by decide⟩
+  · exact ⟨by decide, by decide⟩
+  · intro h; cases h
+
+example : (TPLine.mk "user".toList " ".toList none "1".toList "50".toList []).Valid := by
+  constructor
+  · exact ⟨by decide, by decide⟩
+  · exact ⟨by decide, by decide⟩
+  · intro m hm; cases hm
+  · exact ⟨by decide, by decide⟩
+  · exact ⟨by decide, by decide⟩
+  · intro _; exact stopsAt_nil _
+
+/-- `parse_render_roundtrip` for PlainSecondsLog: numerals of any documented shape, one per line,
+surrounded by white space, interleaved with noise, no failure marker: exactly those values · 1000, in
+order, numbered 1..k -/
+theorem c05_plain_roundtrip (inv : Nat) (ls : List Line)
+    (xs : List (Numeral × List Char × List Char)) (hne : xs ≠ [])
+    (hv : ∀ x ∈ xs, x.1.Valid ∧ (∀ c ∈ x.2.1, isFloatSpace c = true) ∧ (∀ c ∈ x.2.2, isFloatSpace c = true) ∧
+      (cfgPlainSeconds false).marker (x.2.1 ++ (x.1.render ++ x.2.2)) = false)
+    (hls : ls.filter (fun l => !(cfgPlainSeconds false).noise l) = xs.map (fun x => x.2.1 ++ (x.1.render ++ x.2.2))) :
+    collect (cfgPlainSeconds false) inv ls =
+      .ok (freshExpected inv 1 (xs.map (fun x => (ms, .flt (x.1.value * 1000))))) := by
+  have hcl : ∀ x ∈ xs.map (fun x => (x.2.1 ++ (x.1.render ++ x.2.2), (ms, Val.flt (x.1.value * 1000)))),
+      (cfgPlainSeconds false).classify x.1 =
+        some { pre := [], main := { criterion := totalName, unit := x.2.1, value := x.2.2 } } := by
+    intro y hy
+    obtain ⟨x, hx, rfl⟩ := List.mem_map.mp hy
+    obtain ⟨h0, h1, h2, _⟩ := hv x hx
+    exact c05_classify_render_plain x.1 h0 x.2.1 x.2.2 h1 h2
+  have hge := groupsExpected_totals (cfgPlainSeconds false) inv _ hcl 1
+  have h := c05_collect_roundtrip (cfgPlainSeconds false) preNonTotal_plainSeconds inv ls
+    (xs.map (fun x => (([] : List Line), x.2.1 ++ (x.1.render ++ x.2.2)))) (by simpa using hne)
+    (by
+      intro g hg
+      obtain ⟨x, hx, rfl⟩ := List.mem_map.mp hg
+      obtain ⟨h0, h1, h2, hm⟩ := hv x hx
+      refine ⟨?_, (by intro l hl; cases hl), ⟨_, c05_classify_render_plain x.1 h0 x.2.1 x.2.2 h1 h2, rfl⟩⟩
+      intro l hl
+      simp only [Group.lines, List.nil_append, List.mem_cons, List.not_mem_nil, or_false] at hl
+      subst hl
+      exact ⟨rfl, hm⟩)
+    (by
+      rw [hls]
+      clear hls hv hcl hge hne
+      induction xs with
+      | nil => rfl
+      | cons x xs ih => simp [Group.lines, List.flatMap_cons, ih])
+  rw [h]
+  simp only [List.map_map, Function.comp_def] at hge
+  simp only [List.map_map, Function.comp_def, hge]
+
+
+
+/-- `parse_render_roundtrip` for `time -p`: the lines of one invocation in any order, interleaved with
+noise, no failure marker: one data point that holds every time that is not `real`, in order, and then
+the (last) `real` time as the total; without a `real` line the output is rejected -/
+theorem c05_time_p_roundtrip (inv : Nat) (ls : List Line) (xs : List TPLine)
+    (hv : ∀ x ∈ xs, x.Valid ∧ checkForError false [] x.render = false)
+    (hls : ls.filter (fun l => checkForError false [] l || (classifyTimeP l).isSome) = xs.map TPLine.render) :
+    collectTimeP (checkForError false []) classifyTimeP inv ls =
+      match tpTotal inv (xs.map (fun x => (timeCrit x.w, Val.flt x.value))) none with
+      | some t => .ok [tpOthers inv (xs.map (fun x => (timeCrit x.w, Val.flt x.value))) ++ [t]]
+      | none => .notParseable := by
+  rw [c05_collect_ignores_noise_time_p, hls]
+  have h := timePLoop_items (checkForError false []) classifyTimeP inv
+    (xs.map (fun x => (x.render, (timeCrit x.w, Val.flt x.value))))
+    { it := 1, cur := DP.empty, totalMeasure := none, done := [] }
+    ⟨rfl, rfl, open_empty inv 1, by intro t h; cases h⟩
+    (by
+      intro y hy
+      obtain ⟨x, hx, rfl⟩ := List.mem_map.mp hy
+      exact ⟨(hv x hx).2, c05_classify_render_time_p x (hv x hx).1⟩)
+  simp only [List.map_map, Function.comp_def, DP.empty, List.nil_append] at h
+  unfold collectTimeP
+  exact h
+
+/-- non-vacuity and the shape of the result: POSIX `time -p` output -/
+example : collectTimeP (checkForError false []) classifyTimeP 2
+    (splitLines "real 1.50\nuser 1.00\nsys 0.25\n".toList) =
+    .ok [[{ invocation := 2, iteration := 1, criterion := "user".toList, unit := msUnit, value := .flt 1000 },
+          { invocation := 2, iteration := 1, criterion := "sys".toList, unit := msUnit, value := .flt 250 },
+          { invocation := 2, iteration := 1, criterion := totalName, unit := msUnit, value := .flt 1500 }]] := by
+  decide +kernel
+
 
 /-! ## unit conversion -/
 
